@@ -75,10 +75,21 @@ def build(payload, fill, talker='AI', typ='VDM', channel='A', seq=None, cuts=(),
     return out
 
 
+_RECENT = []      # the last decode() calls of this process (parts, kw): a failure that depends on an EARLIER call (hidden
+#                   state in the library) only reproduces after them, so the replay carries them
+
+
+def _ser(parts):
+    return {'parts': [p if isinstance(p, str) else p.decode('latin-1') for p in parts], 'as_str': [isinstance(p, str) for p in parts]}
+
+
 def check(ctx, bits, base, desc, parts, kw=None):
     rep = ctx.rep
     rep.case(tuple(parts), kind=desc[0])
+    before = list(_RECENT)
     got = impl(parts, **(kw or {}))
+    _RECENT.append(dict(_ser(parts), kw=kw or {}))
+    del _RECENT[:-3]
     if got != base:
         comp = 'exception' if got[0] == 'Raise' else ('class' if got[1][0] != base[1][0] else 'fields')
         kind = f'foreign-or-library-exception:{got[1]}' if got[0] == 'Raise' else 'wrong-value'
@@ -87,7 +98,7 @@ def check(ctx, bits, base, desc, parts, kw=None):
         rep.violation({'entry': 'decode', 'component': comp, 'kind': kind, 'transformation': desc[0]},
                       f'carrier variation {desc} of the same payload decodes differently: {detail}',
                       {'bits': bits, 'parts': [p if isinstance(p, str) else p.decode('latin-1') for p in parts],
-                       'as_str': [isinstance(p, str) for p in parts], 'kw': kw or {}})
+                       'as_str': [isinstance(p, str) for p in parts], 'kw': kw or {}, 'before': before})
     return got
 
 
@@ -311,10 +322,15 @@ def replay(ctx, data):
     parts = [p if f else p.encode('latin-1') for p, f in zip(data['parts'], flags)]
     payload, fill = ais.armor(data['bits'])
     base = impl(build(payload, fill))
-    got = impl(parts, **data.get('kw', {}))
-    if base[0] == 'Ok' and got != base:
-        return f'decodes differently from the plain carrier of the same payload: {got[1] if got[0] == "Raise" else "field values differ"}'
-    if base[0] == 'Raise' and (got[0] == 'Ok' or got[1] != base[1]):
-        return (f'the plain carrier of the payload is rejected with {base[1]} but this carrier gives '
-                f'{got[1] if got[0] == "Raise" else "a " + got[1][0]}')
-    return None
+
+    def once():
+        got = impl(parts, **data.get('kw', {}))
+        if base[0] == 'Ok' and got != base:
+            return f'decodes differently from the plain carrier of the same payload: {got[1] if got[0] == "Raise" else "field values differ"}'
+        if base[0] == 'Raise' and (got[0] == 'Ok' or got[1] != base[1]):
+            return (f'the plain carrier of the payload is rejected with {base[1]} but this carrier gives '
+                    f'{got[1] if got[0] == "Raise" else "a " + got[1][0]}')
+        return None
+    for b in data.get('before') or []:        # the calls that preceded it in the recorded run, in order, BEFORE the failing one
+        impl([q if f else q.encode('latin-1') for q, f in zip(b['parts'], b['as_str'])], **b.get('kw', {}))
+    return once()
